@@ -16,10 +16,32 @@ mod native {
         }
     }
 
+    /// the objects one `recalc` call touches, bundled (mirrors the harness-side wrapper `W_Recalc`)
+    #[derive(Serialize, Deserialize)]
+    pub struct WRecalc {
+        pub bp: BrakingPoints,
+        pub state: TrainState,
+        pub fric_brake: FricBrake,
+        pub train_res: TrainRes,
+        pub path_tpc: PathTpc,
+    }
+
+    fn call_w(o: &mut WRecalc, fname: &str, a: &[Value]) -> CallRes {
+        match fname {
+            "BrakingPoints::recalc" => unit(o.bp.recalc(&o.state, &o.fric_brake, &o.train_res, &o.path_tpc)),
+            "BrakingPoints::calc_speeds" => {
+                let (lim, tgt) = o.bp.calc_speeds(f(&a[0]) * uc::M, f(&a[1]) * uc::MPS, f(&a[2]) * uc::S);
+                Ok(Ok(json!([lim.value, tgt.value])))
+            }
+            _ => Err(Unsup(format!("no runner entry for {fname}"))),
+        }
+    }
+
     impl FileEntry for BrakingPointTag {
         fn call(req: &Value) -> Value {
             match req["recv_ty"].as_str().unwrap_or("") {
                 "BrakingPoints" => run::<BrakingPoints>(req, call),
+                "W_Recalc" => run::<WRecalc>(req, call_w),
                 t => json!({"kind": "unsupported", "msg": format!("no runner for {t}")}),
             }
         }
